@@ -151,3 +151,38 @@ func sortedKeys(m map[string]int64) []string {
 	sort.Strings(ks)
 	return ks
 }
+
+// modelCase runs a program through the model and the library and compares. It
+// returns false when the model refused the program (out of region).
+func modelCase(res *fw.Result, key string, prog *Program, pol gen.Policy, checkCalls bool) (lib, mod runOut, ok bool) {
+	mod, steps, inRegion, why := runModel(prog)
+	if !inRegion {
+		res.AddObs("out_of_region_rejected", 1)
+		res.AddClass("out-of-region")
+		_ = why
+		return lib, mod, false
+	}
+	lib = runLib(prog, pol, false)
+	compareRuns(res, key, prog, lib, mod, checkCalls)
+	res.AddObs("exec_steps", lib.exSteps)
+	res.AddObs("model_steps", int64(steps))
+	res.AddObs("callbacks_observed", int64(len(lib.calls)))
+	res.AddObs("output_bytes", int64(len(lib.out)))
+	if lib.err != nil {
+		res.AddClass("error")
+	} else {
+		res.AddClass("rendered")
+	}
+	return lib, mod, true
+}
+
+// helpers to build trees tersely
+func tx(s string) *gen.NText               { return &gen.NText{S: s} }
+func pr(e gen.Expr) *gen.NPrint            { return &gen.NPrint{X: e} }
+func nm(s string) *gen.EName               { return &gen.EName{Name: s} }
+func num(i int) *gen.ENum                  { return &gen.ENum{Text: fmt.Sprint(i)} }
+func str(s string) *gen.EStr               { return &gen.EStr{S: s} }
+func attr(x gen.Expr, k string) *gen.EAttr { return &gen.EAttr{X: x, Key: &gen.EStr{S: k}, Dot: true} }
+func tpl(name string, body ...gen.Node) *gen.Template {
+	return &gen.Template{Name: name, Body: body}
+}
